@@ -46,6 +46,12 @@ fn corpus() -> Vec<(String, Box<dyn Fn(&dyn QueryBuilder) -> (String, Values, St
         s
     };
     for k in 0..512u32 { add!(format!("select#{k}"), base(k)); }
+    for k in [0u32, 8, 24] {
+        let mut s = base(k);
+        s.order_by_expr(Expr::expr(Expr::col(a("c")).if_null("none")).into(), Order::Field(Values(vec!["x".into(), "y".into(), "z".into()])));
+        add!(format!("order-by-field#{k}"), s);
+    }
+    add!("many values", { let mut s = Query::select(); s.column(a("c")).from(a("t")).and_where(Expr::col(a("d")).is_in([1, 2, 3, 4, 5, 6, 7, 8, 9, 10, 11, 12, 13])); s });
     add!("insert rows", Query::insert().into_table(a("t")).columns([a("a"), a("b")]).values_panic([1.into(), "x".into()]).values_panic([2.into(), Value::String(None).into()]).to_owned());
     add!("insert select", Query::insert().into_table(a("t")).columns([a("x")]).select_from(sub()).unwrap().to_owned());
     add!("insert on conflict", Query::insert().into_table(a("t")).columns([a("a")]).values_panic([1.into()]).on_conflict(OnConflict::column(a("a")).value(a("a"), 5).to_owned()).to_owned());
